@@ -44,6 +44,7 @@ type histArtefact struct {
 	Genesis  chain.GenesisOptions `json:"genesis"`
 	History  []int               `json:"history"`
 	Letters  []string            `json:"letters"`
+	MapOrder bool                `json:"map_order,omitempty"`
 }
 
 // standard replica bundles
@@ -72,10 +73,11 @@ func bundleSpecs(prop string, thorough bool) []rspec {
 }
 
 type checker struct {
-	prop  string
-	w     *world
-	alpha []letter
-	specs []rspec
+	prop     string
+	w        *world
+	alpha    []letter
+	specs    []rspec
+	mapOrder bool
 }
 
 // runHistory executes a history on a fresh bundle, evaluating the property's
@@ -86,6 +88,7 @@ func (c *checker) runHistory(h []int, all bool) (key string, what string, pruned
 		return "", "harness: " + err.Error(), false
 	}
 	defer b.close()
+	b.mapOrder = c.mapOrder
 	prevSupply := c.w.doc.Staking.TotalSupply.ToBigInt()
 	for i, li := range h {
 		l := &c.alpha[li]
@@ -144,6 +147,52 @@ func (c *checker) runHistory(h []int, all bool) (key string, what string, pruned
 	return fmt.Sprintf("%d/%x", ref.Height, ref.AppHash), "", false
 }
 
+// mapOrderPhase (C01): every history of depth 2 on the default and on the tie genesis,
+// executed in single-goroutine child processes in which Go's map iteration offset is
+// fixed per replica and block, so that every pair of replicas iterates every small
+// map in different rotations. An order-sensitive iteration makes replicas disagree
+// deterministically.
+func mapOrderPhase(r *ev.Run, variants []chain.GenesisOptions) {
+	if !chain.MapOrderControlled {
+		r.Set("map_iteration_order", "not controlled (runtime overlay unavailable)")
+		return
+	}
+	for vi, opts := range variants {
+		w, err := newWorld(opts)
+		if err != nil {
+			r.HarnessError("genesis variant %d: %v", vi, err)
+			continue
+		}
+		c := &checker{prop: "C01", w: w, alpha: w.alphabet("c01"), specs: bundleSpecs("C01", true), mapOrder: true}
+		n := len(c.alpha)
+		ev.ParallelRange(n*n, r.Seed, func(i int) {
+			if r.Expired() {
+				r.Cap("deadline")
+				return
+			}
+			h := []int{i / n, i % n}
+			_, what, pruned := c.runHistory(h, true)
+			r.Add("transitions", 2)
+			r.Add("map_order_executions", 1)
+			if pruned || what == "" {
+				return
+			}
+			if strings.HasPrefix(what, "harness:") {
+				r.HarnessError("%s [%s]", what, lettersString(c.alpha, h))
+				return
+			}
+			var ln []string
+			for _, x := range h {
+				ln = append(ln, c.alpha[x].Name)
+			}
+			r.Violate(ev.Violation{Engine: "chainmc", Key: fmt.Sprintf("c01 maporder genesis#%d [%s]", vi, lettersString(c.alpha, h)),
+				What:     fmt.Sprintf("genesis variant %d, history [%s], replicas iterating maps in different rotations: %s", vi, lettersString(c.alpha, h), what),
+				Artefact: histArtefact{Property: "C01", Profile: "c01", Genesis: opts, History: h, Letters: ln, MapOrder: true}})
+		})
+	}
+	r.Set("map_iteration_order", "every replica and block runs under a fixed iterator offset (replica+3*block mod 8); all rotations of single-group maps are produced")
+}
+
 func runHistories(r *ev.Run) {
 	prop := r.ID
 	profiles := map[string][]string{"C01": {"c01"}, "C05": {"staking"}, "C10": {"halt"}}[prop]
@@ -161,7 +210,7 @@ func runHistories(r *ev.Run) {
 	if prop == "C01" {
 		// all entities tied and the validator limit cutting into the tie: any order-dependent
 		// step of the election makes replicas disagree
-		variants = append(variants, chain.GenesisOptions{Escrow: []uint64{2000, 2000, 2500}, MaxValidators: 2, EpochInterval: 2, NodeExpiration: 12})
+		variants = append(variants, chain.GenesisOptions{Escrow: []uint64{1500, 2000, 2500}, MaxValidators: 2, EpochInterval: 1, NodeExpiration: 12})
 	}
 	if prop == "C05" && r.Thorough() {
 		variants = append(variants, chain.GenesisOptions{MinTransactBalance: 10, LastBlockFees: 7, EpochInterval: 2})
@@ -180,7 +229,7 @@ func runHistories(r *ev.Run) {
 			fmt.Println("world:", err)
 			os.Exit(2)
 		}
-		c := &checker{prop: prop, w: w, alpha: w.alphabet(a.Profile), specs: bundleSpecs(prop, true)}
+		c := &checker{prop: prop, w: w, alpha: w.alphabet(a.Profile), specs: bundleSpecs(prop, true), mapOrder: a.MapOrder}
 		_, what, _ := c.runHistory(a.History, true)
 		if what != "" {
 			fmt.Printf("VIOLATION property=%s replay=%s\n  what: %s\n", prop, r.Replay, what)
@@ -188,6 +237,12 @@ func runHistories(r *ev.Run) {
 		}
 		fmt.Println("replay: property held")
 		os.Exit(0)
+	}
+	if os.Getenv("VERIF_SHARD") != "" {
+		// child process of the map-order phase (see below)
+		r.Fork(1 << 30)
+		mapOrderPhase(r, variants)
+		r.Finish()
 	}
 	for vi, opts := range variants {
 		for _, profile := range profiles {
@@ -263,6 +318,10 @@ func runHistories(r *ev.Run) {
 	r.Set("depth", depth)
 	r.Set("genesis_variants", len(variants))
 	r.Alias("traces_validated_against_impl", "transitions")
+	if prop == "C01" && chain.MapOrderControlled {
+		// The children run the map-order phase; their results are merged into this run.
+		r.Fork(ev.Workers())
+	}
 	switch prop {
 	case "C01":
 		r.Set("rule", "breadth-first search over block histories (one letter = one block: a transaction list, a vote pattern, a proposer, evidence); every history is executed from genesis on a bundle of replicas of the real ABCI multiplexer + all real applications: proposer (PrepareProposal + cached results), validator (ProcessProposal executes), plain replay, validator that first processed a different proposal, validator with CheckTx/queries injected between all ABCI calls, on-disk replica closed and reopened before every block; badger and pathbadger; oracle: identical state root, per-transaction code/data/gas, validator updates as a set, and acceptance of the honest proposal")
